@@ -17,7 +17,7 @@ use crate::probe::Probe;
 use crate::statejson::{self, oshape_from_spec, Params, ShapeSpec};
 
 pub const TITLE: &str = "Optimisation keeps parameters in range and the cell in its crystal family";
-pub const RULE: &str = "part initial: every group x {hard polygon 3..12 / convex radial, hard circle / trimer, Lennard-Jones circle / trimer}: the from_group state has a finite defined score (> 0 for hard shapes whose area is well defined), in-range parameters, and (hard) no overlap by the harness's tiling oracle. part chains: an initial or a generated valid in-range state, run through 1..4 successive optimisations with independently generated configurations (1..10 inner loops, kT 0..1, every cooling option, max_step_size from 1e-3 up to 8 (a single move may exceed a parameter's whole range), optional convergence), the state being passed on between stages. After every stage, from the JSON of the returned state and that stage's input: 0.01 <= length <= input length; 0.1 <= ratio <= input ratio; angle in [pi/6, pi/2] for oblique groups and bit-identical otherwise; x,y in [-1/2,1/2]; orientation in [0,2pi]; group label, wallpaper family and cell family unchanged; score() finite and defined. Non-trivial = a chain of >= 2 stages in which a cell parameter changed and some proposal was clamped to a bound; distinct by hash of the case. part multi-site: chains of 1..3 optimiser configurations on valid states with 2..4 occupied sites (3 + 3k parameters): after every stage every site's x, y, orientation, the cell parameters (relative to the stage input), the labels and the number of sites are checked and the score must be finite.";
+pub const RULE: &str = "part initial: every group x {hard polygon 3..12 / convex radial, hard circle / trimer, Lennard-Jones circle / trimer}: the from_group state has a finite defined score (> 0 for hard shapes whose area is well defined), in-range parameters, and (hard) no overlap by the harness's tiling oracle. part chains: an initial or a generated valid in-range state, run through 1..4 successive optimisations with independently generated configurations (1..10 inner loops, kT 0..1, every cooling option, max_step_size from 1e-3 up to 8 (a single move may exceed a parameter's whole range), optional convergence), the state being passed on between stages. After every stage, from the JSON of the returned state and that stage's input: 0.01 <= length <= input length; 0.1 <= ratio <= input ratio; angle in [pi/6, pi/2] for oblique groups and bit-identical otherwise; x,y in [-1/2,1/2]; orientation in [0,2pi]; group label, wallpaper family and cell family unchanged; score() finite and defined. Non-trivial = a chain of >= 2 stages in which a cell parameter changed and some proposal was clamped to a bound; distinct by hash of the case. part multi-site: chains of 1..3 optimiser configurations on valid states with 2..4 occupied sites (3 + 3k parameters), a quarter of them in user-built groups of the square and hexagonal families (1..4 sites; only the cell length may change): after every stage every site's x, y, orientation, the cell parameters (relative to the stage input), the labels and the number of sites are checked and the score must be finite.";
 
 pub fn assumptions() -> Vec<&'static str> {
     vec!["the state is handed from stage to stage through serde_json::Value (bit-exact), which re-derives the bounds from the current values exactly as a fresh generate_basis() does"]
@@ -314,16 +314,39 @@ pub struct MultiChain {
     pub spec: crate::multisite::MultiSpec,
     pub lj: bool,
     pub stages: Vec<OptCfg>,
+    /// Some(i): a user-built group of the square (p4, p4mm) or hexagonal family instead of spec.group; the cell of
+    /// such a family has one free parameter, its length
+    #[serde(default)]
+    pub custom: Option<usize>,
 }
 
 fn multi_strat(_: &Ctx) -> BoxedStrategy<MultiChain> {
     let shape = prop_oneof![1 => crate::gen::line_shape_spec(), 2 => crate::gen::mol_shape_spec()];
-    (crate::multisite::multi_strat(shape.boxed(), 0.01, 0.2, 2, 4), any::<bool>(), proptest::collection::vec(cfg_strat(), 1..=3))
-        .prop_map(|(spec, lj, stages)| MultiChain { lj: lj && !matches!(spec.shape, ShapeSpec::Polygon { .. } | ShapeSpec::Radial { .. }), spec, stages })
+    (crate::multisite::multi_strat(shape.boxed(), 0.01, 0.2, 1, 4), any::<bool>(), proptest::collection::vec(cfg_strat(), 1..=3), prop_oneof![3 => Just(None), 1 => proptest::sample::select(vec![0usize, 1, 3]).prop_map(Some)])
+        .prop_map(|(mut spec, lj, stages, custom)| {
+            match custom {
+                Some(3) => {
+                    spec.ratio = 1.;
+                    spec.angle = PI / 3.;
+                }
+                Some(_) => {
+                    spec.ratio = 1.;
+                    spec.angle = PI / 2.;
+                }
+                None => {
+                    if spec.sites.len() < 2 {
+                        // single sites of the built-in groups are the subject of the part `chains`
+                        let extra = spec.sites[0];
+                        spec.sites.push((-extra.0, extra.1 * 0.5, extra.2));
+                    }
+                }
+            }
+            MultiChain { lj: lj && !matches!(spec.shape, ShapeSpec::Polygon { .. } | ShapeSpec::Radial { .. }), spec, stages, custom }
+        })
         .boxed()
 }
 
-fn multi_ranges(v: &Value, input: &Value, group: usize, what: &str) -> Result<bool, String> {
+fn multi_ranges(v: &Value, input: &Value, group: usize, custom: bool, what: &str) -> Result<bool, String> {
     let chk = |name: String, val: f64, lo: f64, hi: f64| -> Result<(), String> {
         if !(val >= lo && val <= hi) {
             Err(format!("{}: {} = {} lies outside its range [{}, {}]", what, name, val, lo, hi))
@@ -344,7 +367,14 @@ fn multi_ranges(v: &Value, input: &Value, group: usize, what: &str) -> Result<bo
     let (c, c0) = (&v["cell"], &input["cell"]);
     chk("cell length".to_string(), num(c, "length")?, 0.01, num(c0, "length")?)?;
     chk("cell side ratio".to_string(), num(c, "ratio")?, 0.1, num(c0, "ratio")?)?;
-    if is_oblique(group) {
+    if custom {
+        // square and hexagonal families: the length is the only free cell parameter
+        for n in ["ratio", "angle"].iter() {
+            if num(c, n)?.to_bits() != num(c0, n)?.to_bits() {
+                return Err(format!("{}: the cell {} of a {} cell changed from {} to {}", what, n, c0["family"], c0[*n], c[*n]));
+            }
+        }
+    } else if is_oblique(group) {
         chk("cell angle".to_string(), num(c, "angle")?, PI / 6., PI / 2.)?;
     } else if num(c, "angle")?.to_bits() != num(c0, "angle")?.to_bits() {
         return Err(format!("{}: the cell angle of a rectangular group changed from {} to {}", what, c0["angle"], c["angle"]));
@@ -379,7 +409,7 @@ fn run_multi<S: State + Serialize + DeserializeOwned>(mut state: S, c: &MultiCha
             }
         };
         let what = format!("stage {} of {} on a state with {} occupied sites ({}, config {:?})", k + 1, c.stages.len(), c.spec.sites.len(), c.spec.describe(), cfg);
-        if multi_ranges(&v, &input, c.spec.group, &what)? {
+        if multi_ranges(&v, &input, c.spec.group, c.custom.is_some(), &what)? {
             moved = true;
         }
         match score {
@@ -398,15 +428,19 @@ fn multi_oracle(c: &MultiChain, rec: &Rec, _: &Ctx) -> Result<(), String> {
         rec.class("skipped-shape-without-area");
         return Ok(());
     }
+    let wg = match c.custom {
+        Some(i) => crate::multisite::custom_group(i).0,
+        None => statejson::wg(c.spec.group),
+    };
     let r = match (&c.spec.shape, c.lj) {
-        (ShapeSpec::Polygon { .. }, _) | (ShapeSpec::Radial { .. }, _) => run_multi(crate::multisite::packed_line(&c.spec)?, c, rec)?,
-        (_, false) => run_multi(crate::multisite::packed_mol(&c.spec)?, c, rec)?,
-        (_, true) => run_multi(crate::multisite::potential(&c.spec)?, c, rec)?,
+        (ShapeSpec::Polygon { .. }, _) | (ShapeSpec::Radial { .. }, _) => run_multi(crate::multisite::packed_line_in(&wg, &c.spec)?, c, rec)?,
+        (_, false) => run_multi(crate::multisite::packed_mol_in(&wg, &c.spec)?, c, rec)?,
+        (_, true) => run_multi(crate::multisite::potential_in(&wg, &c.spec)?, c, rec)?,
     };
     match r {
         None => rec.class("skipped-start-without-finite-score"),
         Some((done, moved)) => {
-            let class = format!("{}/{}sites/stages{}{}", if c.lj { "lj" } else { "hard" }, c.spec.sites.len(), done, if moved { "/cell-moved" } else { "" });
+            let class = format!("{}/{}{}sites/stages{}{}", if c.lj { "lj" } else { "hard" }, if let Some(i) = c.custom { format!("{}/", crate::multisite::custom_group(i).0.name) } else { String::new() }, c.spec.sites.len(), done, if moved { "/cell-moved" } else { "" });
             rec.class(&class);
             if moved && done >= 2 {
                 rec.nontrivial(hash_json(&serde_json::to_value(c).unwrap()));
